@@ -6,6 +6,10 @@ package main
 import (
 	"encoding/json"
 	"fmt"
+	"os"
+	"path/filepath"
+	"sort"
+	"strings"
 
 	"github.com/containerd/nri/pkg/api"
 
@@ -100,7 +104,12 @@ func driveBuilders(c *hx.Ctx) error {
 	if len(c.Stats.HarnessErrors) > 0 {
 		return nil
 	}
-	driveMarks(c)
+	// ./check sets VERIF_PROPERTY: each property is judged on the files it is anchored in — C02 and C13 on the
+	// adjustment builders (adjustment.go; helpers.go for C02, mount.go / device.go / env.go for C13), C05 on the
+	// update builders (update.go).  Standalone (no property): everything.
+	pid := os.Getenv("VERIF_PROPERTY")
+	doAdj, doUpd := pid != "C05", pid != "C02" && pid != "C13"
+	driveMarks(c, pid != "C05" && pid != "C13", pid != "C05" && pid != "C02")
 
 	g := &G{r: c.Rand("builders")}
 	sh := c.NewShardV("build", imports, "build_case", "verdict_build", []string{"corr_build", "holds_C02", "holds_C13", "holds_C05"}, c.Pick(250, 500))
@@ -109,6 +118,12 @@ func driveBuilders(c *hx.Ctx) error {
 	calls := map[string]int{}
 
 	run := func(stream string, ops, uops []Op, spec *nm.Container) {
+		if !doAdj {
+			ops = nil
+		}
+		if !doUpd {
+			uops = nil
+		}
 		cs := &BuildCase{Stream: stream, ID: pick(g.r, []string{"ctr0", "ctr1", "c"}), Ops: ops, UID: pick(g.r, ctrIDs), UOps: uops, Spec: spec}
 		a := &api.ContainerAdjustment{}
 		for _, o := range ops {
@@ -131,7 +146,7 @@ func driveBuilders(c *hx.Ctx) error {
 		}
 		cs.Upd = updateFromAPI(u)
 		var genFailed string
-		if bad == "" {
+		if bad == "" && doAdj {
 			cs.Gen, genFailed = generate(spec, a)
 		}
 		sh.Add(cs.Coq(), cs)
@@ -142,7 +157,11 @@ func driveBuilders(c *hx.Ctx) error {
 
 		// ---- the same oracles in Go
 		for _, p := range cs.Panics {
-			for _, pfx := range []string{"C02", "C13", "C05"} {
+			pfxs := []string{"C02", "C13"} // the adjustment builders are how plugins remove / set items in C02 and C13
+			if strings.HasPrefix(p, "ContainerUpdate.") {
+				pfxs = []string{"C05"}
+			}
+			for _, pfx := range pfxs {
 				c.ImplFail("build", pfx+": a builder method panicked or left an unreadable message: "+p, cs)
 			}
 		}
@@ -162,6 +181,27 @@ func driveBuilders(c *hx.Ctx) error {
 		}
 	}
 
+	// (0) the committed boundary cases
+	for _, f := range corpusFiles() {
+		var cc struct {
+			Note string `json:"note"`
+			Ops  []Op   `json:"ops"`
+			UOps []Op   `json:"uops"`
+			Spec int    `json:"spec"`
+		}
+		b, err := os.ReadFile(f)
+		if err == nil {
+			err = json.Unmarshal(b, &cc)
+		}
+		if err == nil {
+			err = checkOps(cc.Ops, cc.UOps)
+		}
+		if err != nil || cc.Spec < 0 || cc.Spec >= len(sp) {
+			c.HarnessError("corpus file %s: %v", f, err)
+			continue
+		}
+		run("corpus/"+strings.TrimSuffix(filepath.Base(f), ".json"), cc.Ops, cc.UOps, sp[cc.Spec])
+	}
 	// (1) every method alone, several argument draws each (every SetLinux* at least once per run by construction)
 	reps := c.Pick(6, 40)
 	for i := 0; i < reps; i++ {
@@ -200,35 +240,40 @@ func driveBuilders(c *hx.Ctx) error {
 	}
 
 	for _, m := range adjNames {
-		if calls["adjust."+m] == 0 {
+		if calls["adjust."+m] == 0 && doAdj {
 			c.HarnessError("ContainerAdjustment.%s was never called", m)
 		}
 		c.Count("calls.adjust."+m, calls["adjust."+m])
 	}
 	for _, m := range updNames {
-		if calls["update."+m] == 0 {
+		if calls["update."+m] == 0 && doUpd {
 			c.HarnessError("ContainerUpdate.%s was never called", m)
 		}
 		c.Count("calls.update."+m, calls["update."+m])
 	}
 	c.Stats.Extra = map[string]interface{}{
 		"adjustment_methods": adjNames, "update_methods": updNames,
+		"scope":    fmt.Sprintf("VERIF_PROPERTY=%q: adjustment builders %v, update builders %v", pid, doAdj, doUpd),
 		"coverage": "method sets enumerated by reflection over *api.ContainerAdjustment / *api.ContainerUpdate and compared with the op table: equal",
 	}
 	c.Stats.Rule = "builders: sequences of the REAL builder methods on a fresh ContainerAdjustment and a fresh ContainerUpdate: every method alone with several argument draws (boundary values 0, +-1, max/min int64, max uint64, empty strings, the bare marker \"-\", already marked keys), remove-then-add and add-then-remove pairs of one key for annotations / mounts / env / devices, random sequences of 1..8 methods with keys from small pools so that removals and sets of one key meet; the built adjustment is also applied by the real generator to one of three small specs; all are non-trivial; distinct by (method sequence, arguments). marks: IsMarkedForRemoval / MarkForRemoval / ClearRemovalMarker and the per-type methods on a pool of keys (empty, \"-\", \"--\", marked, unmarked) and random strings"
 	return nil
 }
 
-// ---------------------------------------------------------------- helpers.go
+// ---------------------------------------------------------------- helpers.go, mount.go, device.go, env.go
 
 type MarkCase struct {
+	Key   string `json:"key"`
+	Mark  string `json:"mark"`
+	IsK   string `json:"is_key"`
+	IsM   bool   `json:"is_marked"`
+	RtK   string `json:"rt_key"`
+	RtM   bool   `json:"rt_marked"`
+	Clear string `json:"clear"`
+}
+
+type TypedCase struct {
 	Key    string `json:"key"`
-	Mark   string `json:"mark"`
-	IsK    string `json:"is_key"`
-	IsM    bool   `json:"is_marked"`
-	RtK    string `json:"rt_key"`
-	RtM    bool   `json:"rt_marked"`
-	Clear  string `json:"clear"`
 	MountK string `json:"mount_key"`
 	MountM bool   `json:"mount_marked"`
 	DevK   string `json:"dev_key"`
@@ -239,8 +284,15 @@ type MarkCase struct {
 
 func sb(k string, m bool) string { return coqfmt.Pair(coqfmt.Str(k), coqfmt.Bool(m)) }
 
-func driveMarks(c *hx.Ctx) {
-	sh := c.NewShardV("marks", imports, "mark_case", "verdict_marks", []string{"corr_marks", "holds_C02", "holds_C13"}, 1000)
+// driveMarks: the helpers of helpers.go (marks) and the per-type methods (typed) on a pool of keys.
+func driveMarks(c *hx.Ctx, marks, typed bool) {
+	var sh, th *hx.Shard
+	if marks {
+		sh = c.NewShardV("marks", imports, "mark_case", "verdict_marks", []string{"corr_marks", "holds_C02"}, 1000)
+	}
+	if typed {
+		th = c.NewShardV("typed_marks", imports, "typed_case", "verdict_typed", []string{"corr_typed_marks", "holds_C13"}, 1000)
+	}
 	keys := []string{"", "-", "--", "---", "-a", "a", "a-", "-/m/a", "/m/a", "--x", "- ", " -", "k=v", "-k=v", "E1", "-E1", "/dev/null", "-/dev/null"}
 	r := c.Rand("marks")
 	alphabet := "-ab/=. "
@@ -253,31 +305,71 @@ func driveMarks(c *hx.Ctx) {
 		keys = append(keys, string(b))
 	}
 	for _, k := range keys {
-		cs := MarkCase{Key: k, Mark: api.MarkForRemoval(k), Clear: api.ClearRemovalMarker(k)}
-		cs.IsK, cs.IsM = api.IsMarkedForRemoval(k)
-		cs.RtK, cs.RtM = api.IsMarkedForRemoval(api.MarkForRemoval(k))
-		cs.MountK, cs.MountM = (&api.Mount{Destination: k}).IsMarkedForRemoval()
-		cs.DevK, cs.DevM = (&api.LinuxDevice{Path: k}).IsMarkedForRemoval()
-		cs.EnvK, cs.EnvM = (&api.KeyValue{Key: k}).IsMarkedForRemoval()
-		sh.Add(fmt.Sprintf("{| mk_key := %s; mk_mark := %s; mk_is := %s; mk_rt := %s; mk_clear := %s; mk_mount := %s; mk_dev := %s; mk_env := %s |}",
-			coqfmt.Str(k), coqfmt.Str(cs.Mark), sb(cs.IsK, cs.IsM), sb(cs.RtK, cs.RtM), coqfmt.Str(cs.Clear),
-			sb(cs.MountK, cs.MountM), sb(cs.DevK, cs.DevM), sb(cs.EnvK, cs.EnvM)), cs)
-		c.Eval("mark/"+k, true)
-		c.Count("marks", 1)
 		// the oracle in Go, written without the functions under test
 		wantK, wantM := k, false
 		if len(k) > 0 && k[0] == '-' {
 			wantK, wantM = k[1:], true
 		}
-		if cs.RtK != k || !cs.RtM {
-			c.ImplFail("marks", fmt.Sprintf("C02: IsMarkedForRemoval(MarkForRemoval(%q)) = (%q, %v), want (%q, true)", k, cs.RtK, cs.RtM, k), cs)
+		if marks {
+			cs := MarkCase{Key: k, Mark: api.MarkForRemoval(k), Clear: api.ClearRemovalMarker(k)}
+			cs.IsK, cs.IsM = api.IsMarkedForRemoval(k)
+			cs.RtK, cs.RtM = api.IsMarkedForRemoval(api.MarkForRemoval(k))
+			sh.Add(fmt.Sprintf("{| mk_key := %s; mk_mark := %s; mk_is := %s; mk_rt := %s; mk_clear := %s |}",
+				coqfmt.Str(k), coqfmt.Str(cs.Mark), sb(cs.IsK, cs.IsM), sb(cs.RtK, cs.RtM), coqfmt.Str(cs.Clear)), cs)
+			c.Eval("mark/"+k, true)
+			c.Count("marks", 1)
+			if cs.RtK != k || !cs.RtM {
+				c.ImplFail("marks", fmt.Sprintf("C02: IsMarkedForRemoval(MarkForRemoval(%q)) = (%q, %v), want (%q, true)", k, cs.RtK, cs.RtM, k), cs)
+			}
+			if cs.IsK != wantK || cs.IsM != wantM {
+				c.ImplFail("marks", fmt.Sprintf("C02: IsMarkedForRemoval(%q) = (%q, %v), want (%q, %v)", k, cs.IsK, cs.IsM, wantK, wantM), cs)
+			}
 		}
-		if cs.IsK != wantK || cs.IsM != wantM {
-			c.ImplFail("marks", fmt.Sprintf("C02: IsMarkedForRemoval(%q) = (%q, %v), want (%q, %v)", k, cs.IsK, cs.IsM, wantK, wantM), cs)
-		}
-		if cs.MountK != wantK || cs.MountM != wantM || cs.DevK != wantK || cs.DevM != wantM || cs.EnvK != wantK || cs.EnvM != wantM {
-			c.ImplFail("marks", fmt.Sprintf("C13: the per-type IsMarkedForRemoval methods disagree on key %q: mount (%q, %v) device (%q, %v) env (%q, %v), want (%q, %v)",
-				k, cs.MountK, cs.MountM, cs.DevK, cs.DevM, cs.EnvK, cs.EnvM, wantK, wantM), cs)
+		if typed {
+			cs := TypedCase{Key: k}
+			cs.MountK, cs.MountM = (&api.Mount{Destination: k}).IsMarkedForRemoval()
+			cs.DevK, cs.DevM = (&api.LinuxDevice{Path: k}).IsMarkedForRemoval()
+			cs.EnvK, cs.EnvM = (&api.KeyValue{Key: k}).IsMarkedForRemoval()
+			th.Add(fmt.Sprintf("{| tk_key := %s; tk_mount := %s; tk_dev := %s; tk_env := %s |}",
+				coqfmt.Str(k), sb(cs.MountK, cs.MountM), sb(cs.DevK, cs.DevM), sb(cs.EnvK, cs.EnvM)), cs)
+			c.Eval("typed/"+k, true)
+			c.Count("typed_marks", 1)
+			if cs.MountK != wantK || cs.MountM != wantM || cs.DevK != wantK || cs.DevM != wantM || cs.EnvK != wantK || cs.EnvM != wantM {
+				c.ImplFail("typed_marks", fmt.Sprintf("C13: the per-type IsMarkedForRemoval methods on key %q: mount (%q, %v) device (%q, %v) env (%q, %v), want (%q, %v)",
+					k, cs.MountK, cs.MountM, cs.DevK, cs.DevM, cs.EnvK, cs.EnvM, wantK, wantM), cs)
+			}
 		}
 	}
+}
+
+// corpusFiles lists corpus/builders/*.json next to the build directory (committed boundary cases,
+// replayed before the generated ones).
+func corpusFiles() []string {
+	dir := filepath.Join(filepath.Dir(filepath.Dir(os.Args[0])), "corpus", "builders")
+	if _, err := os.Stat(dir); err != nil {
+		dir = "/verif/corpus/builders"
+	}
+	fs, _ := filepath.Glob(filepath.Join(dir, "*.json"))
+	sort.Strings(fs)
+	return fs
+}
+
+// checkOps validates a corpus case: known methods with the arguments they need.
+func checkOps(ops, uops []Op) error {
+	for _, o := range ops {
+		_, isRes := resDefs[o.M]
+		if _, ok := adjOnly[o.M]; !ok && !isRes {
+			return fmt.Errorf("unknown ContainerAdjustment method %q", o.M)
+		}
+		if (o.M == "AddMount" && o.Mount == nil) || (o.M == "AddDevice" && o.Dev == nil) || (o.M == "AddHooks" && o.Hooks == nil) {
+			return fmt.Errorf("%s without its argument", o.M)
+		}
+	}
+	for _, o := range uops {
+		_, isRes := resDefs[o.M]
+		if _, ok := updOnly[o.M]; !ok && !isRes {
+			return fmt.Errorf("unknown ContainerUpdate method %q", o.M)
+		}
+	}
+	return nil
 }
